@@ -184,6 +184,17 @@ pub fn run(case: &Value, _seed: u64) -> Outcome {
             rt(&mut o, ty, &(match f[0] { 1 => License::Name(n), 2 => License::Text(t), _ => License::Named(n, t) }), |v| v.to_string(), &feats) }
         "Signature" => { use apt_sources::signature::Signature; let t = ["/usr/share/keyrings/x.gpg", "-----BEGIN PGP PUBLIC KEY BLOCK-----\n.\nmQ\n-----END PGP PUBLIC KEY BLOCK-----", "a\nb"][f[1] - 1];
             let v = if f[0] == 1 { if t.contains('\n') { return o; } Signature::KeyPath(t.into()) } else { if !t.contains('\n') { return o; } Signature::KeyBlock(t.into()) };
+            // one-line key paths are carried as written (doubled separators, dot segments, a trailing separator)
+            if f[0] == 1 && f[1] == 1 {
+                for t in ["/etc/apt/keyrings//docker.gpg", "/etc/apt/./trusted.gpg.d/x.asc", "keys/", "./rel.gpg", "a/../b.gpg", "/x.gpg/", "~/k.gpg", "C:\\k.gpg", "/a b/k.gpg"] {
+                    o.evals += 1;
+                    match guarded("Signature::from_str", || Signature::from_str(t).map(|v| v.to_string())) {
+                        Ok(Ok(back)) => if back != t { o.v("C18", "text_roundtrip", ty, "mismatch", &feats, t, format!("prints {:?}", back)); },
+                        Ok(Err(_)) => {}
+                        Err(m) => o.v("C18", "text_roundtrip", ty, "panic", &feats, t, m),
+                    }
+                }
+            }
             rt(&mut o, ty, &v, |v| v.to_string(), &feats) }
         _ => {}
     }
